@@ -37,7 +37,7 @@ CMAKE = "/usr/bin/cmake"
 def strategy(tier):
     p = G.Profile(max_items=5 if tier == "quick" else 6, depth=2, dangling=False, body_max=2, min_items=1)
     where = G.weighted((3, st.integers(0, 400)), (1, st.sampled_from([-1, -2, -3, -4])))      # last positions: EOF contexts
-    plan = st.tuples(st.sampled_from(KINDS), where, st.integers(0, 3))
+    plan = st.tuples(st.sampled_from(KINDS), where, st.integers(0, 7))
     return st.fixed_dictionaries({
         "module": G.module(p), "layout": G.layout_choices(24),
         "faults": st.lists(plan, min_size=1, max_size=2),
@@ -91,7 +91,9 @@ def apply_fault(src, kind, off, ctx, variant):
     if kind == "bare-word":
         if ctx == "in-args":
             return None
-        return src[:off] + ["\nstrayword\n", "\nstray word(\n", "\n123abc\n", "\n= x\n"][variant % 4] + src[off:]
+        # also characters that are line boundaries for str.splitlines() but ordinary (stray) text for CMake
+        words = ["\nstrayword\n", "\nstray word(\n", "\n123abc\n", "\n= x\n", "\n\x0c\n", "\n\x85\n", "\n\u2028\n", "\n\x0b\x1c\n"]
+        return src[:off] + words[variant % len(words)] + src[off:]
     return None
 
 
@@ -315,7 +317,7 @@ def evaluate(case):
             for kind in KINDS:
                 if kind == "missing-close":
                     continue
-                m = apply_fault(src, kind, off, ctx, (off + len(kind)) % 4)
+                m = apply_fault(src, kind, off, ctx, (off + len(kind)) % 8)
                 if m is None:
                     continue
                 n += 1
